@@ -193,6 +193,79 @@ Compose(l) ==
     time    |-> [fn |-> "time_correlation", column |-> "time_corr",
                  scale |-> Div(Mul2(I(4), Pi), I(2 * l + 1)), renormalise |-> "by_lag0"] ]
 
+\* ---------------------------------------------------------------- frame attributes
+\* Everything boo_3d reads of a frame belongs to THAT frame: positions, the cell, the neighbour list (and with it
+\* the coordination numbers and the padded width max_i N_i of the list as read), the weights, the order in which
+\* the lines of the neighbour / weight file are written.  A frame record may carry its own cell `H` (a sheared run:
+\* the tilt factors change from frame to frame at constant edge lengths) and the line orders `ord` / `word` (the ids
+\* in the order of the lines of the neighbour / weight file; the reader files every line under its id, so no
+\* definition above depends on them).  boo_3d demands of a trajectory only a constant particle number and constant
+\* box LENGTHS; the property adds that every particle has at least one neighbour.
+CellOf(H0, fr)   == IF "H" \in DOMAIN fr THEN fr.H ELSE H0
+EdgeLengths(H)   == [k \in 1..Len(H) |-> H[k][k]]
+IsPermutation(s, N) == Len(s) = N /\ Range(s) = 1..N
+LineOrdersOK(fr) ==
+  /\ ("ord" \in DOMAIN fr => IsPermutation(fr.ord, Len(fr.pos)))
+  /\ ("word" \in DOMAIN fr => (fr.word = << >> \/ IsPermutation(fr.word, Len(fr.pos))))
+TrajectoryInDomain(H0, frames, nmax) ==
+  /\ \A f \in 1..Len(frames) :
+       /\ Len(frames[f].pos) = Len(frames[1].pos)
+       /\ EdgeLengths(CellOf(H0, frames[f])) = EdgeLengths(CellOf(H0, frames[1]))
+       /\ Weighted(frames[f]) = Weighted(frames[1])
+       /\ LineOrdersOK(frames[f])
+       /\ \A i \in 1..Len(frames[f].pos) : Cn(frames[f], i, nmax) >= 1
+\* the widest list of a frame after the reader's truncation (the reader pads every row of the frame to this width)
+MaxCn(fr, nmax) == LET S == {Cn(fr, i, nmax) : i \in 1..Len(fr.pos)} IN CHOOSE x \in S : \A y \in S : y <= x
+\* which attributes actually differ between the frames of a trajectory (evidence against vacuity)
+Varies(H0, frames, nmax) ==
+  [ cell  |-> \E f \in 1..Len(frames) : CellOf(H0, frames[f]) # CellOf(H0, frames[1]),
+    pos   |-> \E f \in 1..Len(frames) : frames[f].pos # frames[1].pos,
+    lists |-> \E f \in 1..Len(frames) : frames[f].nl # frames[1].nl,
+    width |-> \E f \in 1..Len(frames) : MaxCn(frames[f], nmax) # MaxCn(frames[1], nmax),
+    w     |-> \E f \in 1..Len(frames) : frames[f].w # frames[1].w,
+    order |-> \E f \in 1..Len(frames) : "ord" \in DOMAIN frames[f] /\ frames[f].ord # frames[1].ord ]
+
+\* ---------------------------------------------------------------- sessions on one boo_3d object
+\* The constructor computes (q_lm, Q_lm) of every frame; every method is an OBSERVER of that state: its value is the
+\* documented function of q_lm (coarse_graining = FALSE) or Q_lm (TRUE) and of its own arguments, whatever was
+\* called before, with whatever arguments, in whatever order.  A call is [m, cg, cj] (cj = index of the threshold
+\* c for sij_ql_Ql, 0 otherwise); `obs` names the fields of the per-frame expectation record (FrameExpG) that
+\* state its value -- a function of the call alone, not of its position in the session.
+MCall(m, cg, cj) == [m |-> m, cg |-> cg, cj |-> cj]
+CallCatalogue(nthr, withW) ==
+  <<MCall("qlm_Qlm", FALSE, 0)>>
+  \o [k \in 1..2 |-> MCall("ql_Ql", k = 2, 0)]
+  \o [k \in 1..(2 * nthr) |-> MCall("sij_ql_Ql", k > nthr, ((k - 1) % nthr) + 1)]
+  \o (IF withW THEN [k \in 1..2 |-> MCall("w_W_cap", k = 2, 0)] ELSE << >>)
+  \o [k \in 1..2 |-> MCall("spatial_corr", k = 2, 0)]
+  \o [k \in 1..2 |-> MCall("time_corr", k = 2, 0)]
+CallObs(c) ==
+  IF c.m = "qlm_Qlm" THEN <<"qlm", "Qlm">>
+  ELSE IF c.m = "ql_Ql" THEN (IF c.cg THEN <<"Ql">> ELSE <<"ql">>)
+  ELSE IF c.m = "sij_ql_Ql" THEN (IF c.cg THEN <<"Sij", "Q", "N2">> ELSE <<"sij", "q", "n2">>)     \* rows, count key, norms
+  ELSE IF c.m = "w_W_cap" THEN (IF c.cg THEN <<"W", "Wcap", "N2">> ELSE <<"w", "wcap", "n2">>)
+  ELSE (IF c.cg THEN <<"Qlm">> ELSE <<"qlm">>)                                                  \* correlations: composed on this field
+WithObs(c) == [m |-> c.m, cg |-> c.cg, cj |-> c.cj, obs |-> CallObs(c)]
+\* the permutation of s selected by h (positions drawn by a small multiplicative generator, 0 < h < 65537)
+DropAt(s, k) == SubSeq(s, 1, k - 1) \o SubSeq(s, k + 1, Len(s))
+RECURSIVE PermFrom(_, _)
+PermFrom(s, h) ==
+  IF Len(s) <= 1 THEN s
+  ELSE LET k == (h % Len(s)) + 1 IN <<s[k]>> \o PermFrom(DropAt(s, k), ((h * 75) % 65537) + 1)
+\* a session: every call of the catalogue once, in the order selected by h, then the first two calls again in
+\* reverse (a repeated call returns what it returned before)
+SessionOf(nthr, withW, h) ==
+  LET p == PermFrom(CallCatalogue(nthr, withW), (h % 65536) + 1) IN p \o <<p[2], p[1]>>
+SessionWellFormed(s, nthr, withW) ==
+  LET cat == CallCatalogue(nthr, withW) IN
+  /\ Len(s) = Len(cat) + 2
+  /\ Range(SubSeq(s, 1, Len(cat))) = Range(cat)
+  /\ \A p \in 1..Len(s) : s[p] \in Range(cat)
+KnownCall(c, nthr) ==
+  /\ c.m \in {"qlm_Qlm", "ql_Ql", "sij_ql_Ql", "w_W_cap", "spatial_corr", "time_corr"}
+  /\ c.cg \in BOOLEAN
+  /\ (IF c.m = "sij_ql_Ql" THEN c.cj \in 1..nthr ELSE c.cj = 0)
+
 \* ---------------------------------------------------------------- exact side (addition theorem)
 \* cos^2 of the angle between integer vectors, and the sign of the cosine
 Cos2(a, b)   == RNorm(Dot(a, b) * Dot(a, b), Norm2(a) * Norm2(b))
